@@ -9,6 +9,32 @@ BASELINE = ("cd /repo && env -u PYCRAFT_VERIF /venv/bin/python -m pytest -ra -q 
             "--timeout=900 --continue-on-collection-errors")
 
 CHECKS = {
+    'C04': dict(
+        technique='TLA+ bit-level packing (PositionCodec.tla) enumerated by TLC; rows replayed into Position/'
+                  'ChunkSectionPos/Record (S->I); layout vector over all known versions checked by TLC ASSUMEs '
+                  '(T-mode); random triples recomputed by TLC (I->S)',
+        text='TLC enumerates PositionCodec (64-bit words as bit sequences: XYZ and XZY layouts, chunk-section '
+             '22/22/20, block records either side of 741) over the per-axis boundary product, every single-bit / '
+             'complement / run word, and checks the reference packing is an exact inverse; the harness probes the '
+             'layout the code uses at each of the known protocol versions and TLC checks the vector is XYZ up to '
+             '404, XZY from 477 with a single switch; every row is replayed at representative versions of its layout '
+             'and seeded random triples at random versions are recomputed by TLC.',
+        note='Trusted: TLC, JSON hand-over; chronological rank from the code\'s own version list (C08 checks it). '
+             'Full boundary product only in the thorough tier; quick uses a reduced product plus full per-axis sweeps.',
+        design='5/C04'),
+    'C06': dict(
+        technique='id tables extracted from the running code as a TLA+ constant (T-mode): TLC ASSUMEs totality and '
+                  'injectivity and model-checks the dispatch-dict build under every insertion order; real reactors '
+                  'compared with the table under shuffled class orders',
+        text='For every known protocol version x 4 states x 2 directions the harness evaluates get_packets/get_id '
+             'and hands the table to TLC: IdTables.tla ASSUMEs every class of a supported version has a non-negative '
+             'integer id and no two share one, and model-checks that building the id->class dict in any insertion '
+             'order dispatches every class by its own id; the real PacketReactor subclasses are then constructed at '
+             'every supported version under shuffled class orders and their dict must equal the table. Exhaustive '
+             'over the quantifier of the property.',
+        note='Trusted: TLC, JSON hand-over. Nine collisions inside snapshot windows are recorded as known findings '
+             '(known_findings.json); entries so excused are excluded from the TLC walk, every other collision alarms.',
+        design='5/C06'),
     'C02': dict(
         technique='TLA+ reference encoders (Wire.tla) generate (type, value, bytes) rows via TLC; rows replayed '
                   'into types/basic.py (S->I); random wide values recomputed by TLC (I->S)',
